@@ -276,18 +276,9 @@ example : parseNPath false "services.\"foo.bar\".\"a\\\"b\"".toList =
     .ok [⟨"services".toList, false⟩, ⟨"foo.bar".toList, true⟩, ⟨"a\"b".toList, true⟩] := by decide
 example : formatAttrName false ⟨"${x}\n".toList, true⟩ = "\"\\${x}\\n\"".toList := by decide
 example : renderSeg "foo.bar".toList = "\"foo.bar\"".toList := by decide
-set_option linter.unusedSimpArgs false
-example : sameName "foo-bar".toList "\"foo-bar\"".toList = true := by
-  simp [sameName, decodeAttrName, decodeNameBody, nameIdent, nameIdentStart, nameIdentRest, inRanges,
-    nameStartRanges, nameRestRanges, nameUnesc, nameEscapes, List.lookup]
-example : sameName "\"a\\nb\"".toList "\"a\nb\"".toList = true := by
-  simp [sameName, decodeAttrName, decodeNameBody, nameIdent, nameIdentStart, nameIdentRest, inRanges,
-    nameStartRanges, nameRestRanges, nameUnesc, nameEscapes, List.lookup]
-example : sameName "\"a.b\"".toList "a.b".toList = false := by
-  simp [sameName, decodeAttrName, decodeNameBody, nameIdent, nameIdentStart, nameIdentRest, inRanges,
-    nameStartRanges, nameRestRanges, nameUnesc, nameEscapes, List.lookup]
-example : sameName "\"${x}\"".toList "\"\\${x}\"".toList = false := by
-  simp [sameName, decodeAttrName, decodeNameBody, nameIdent, nameIdentStart, nameIdentRest, inRanges,
-    nameStartRanges, nameRestRanges, nameUnesc, nameEscapes, List.lookup]
+example : sameName "foo-bar".toList "\"foo-bar\"".toList = true := by decide
+example : sameName "\"a\\nb\"".toList "\"a\nb\"".toList = true := by decide
+example : sameName "\"a.b\"".toList "a.b".toList = false := by decide
+example : sameName "\"${x}\"".toList "\"\\${x}\"".toList = false := by decide
 
 end Nima.C12
